@@ -1586,3 +1586,52 @@ Example T02i_inline_examples :
   obs (run_i W12 (inl_before_13da1a3 p_alias)) = (None, [EvPrint (RInt 10)]).
 Proof. repeat split; reflexivity. Qed.
 End IdxInl.
+(* ================================================================================================ *)
+(* tranche "ctl": abstractions.simplify_if_control_flow over MiniPy (RulesCtlModel.v / RulesCtlProofs.v) *)
+Require Pyrefact.RulesCtlModel Pyrefact.RulesCtlProofs.
+Module Ctl.
+Import ListNotations.
+Import Pyrefact.MiniPyModel Pyrefact.RulesCtlModel Pyrefact.RulesCtlProofs.
+
+(* one pass of the rule body (the first if / else in ast.walk order whose branches are equal up to a renaming of
+   names, `var_N = name` put in front of both branches, the differing Name nodes replaced), for EVERY MiniPy
+   program, EVERY oracle of the opaque calls / unknown conditions and EVERY initial state: the new names are
+   var_N names that do not occur in the program, and the program before and after have the same runs -- same
+   outcome (incl. the returned value), same oracle position, same event trace, same contents of every variable
+   except the new names; termination is preserved in both directions *)
+Theorem T02ctl_step_sound : forall p p' tr, sicf_step p = Done p' tr ->
+  (forall w, In w (new_names tr) -> VB <= w /\ ~ In w (bvars p)) /\
+  forall o st,
+    (forall r, runs o st p r -> exists r', runs o st p' r' /\ same_upto (new_names tr) r r') /\
+    (forall r', runs o st p' r' -> exists r, runs o st p r /\ same_upto (new_names tr) r r').
+Proof. exact sicf_step_sound. Qed.
+Print Assumptions T02ctl_step_sound.
+
+(* the rule function (it calls itself on its result until no node is rewritten or alter_code refuses an `elif`):
+   same runs up to the contents of the var_N names *)
+Theorem T02ctl_rule_sound : forall p o st,
+  (forall r, runs o st p r -> exists r', runs o st (sicf p) r' /\ same_low r r') /\
+  (forall r', runs o st (sicf p) r' -> exists r, runs o st p r /\ same_low r r').
+Proof. exact sicf_sound. Qed.
+Print Assumptions T02ctl_rule_sound.
+
+(* ... hence the same observable behaviour of the function (outcome, oracle position, event trace) *)
+Theorem T02ctl_rule_obs_equiv : forall p, obs_equiv p (sicf p).
+Proof. exact sicf_obs_equiv. Qed.
+Print Assumptions T02ctl_rule_obs_equiv.
+
+(* the general statement behind them: rewriting ANY number of assignment-free if / else nodes this way (or back),
+   with new names W the program does not mention, from states that agree outside W *)
+Theorem T02ctl_rewrite_sound : forall W o p p' st st', brel W p p' -> R W st st' ->
+  (forall r, runs o st p r -> exists r', runs o st' p' r' /\ Rres W r r') /\
+  (forall r', runs o st' p' r' -> exists r, runs o st p r /\ Rres W r r').
+Proof. exact brel_sound. Qed.
+Print Assumptions T02ctl_rewrite_sound.
+
+(* non-vacuity: a program with two pairs of differing names and a nested if on which the rule fires; an elif
+   chain on which it stops without touching the later candidate *)
+Example T02ctl_fires : exists p' tr, sicf_step ex_fire = Done p' tr /\ length tr = 2.
+Proof. eexists; eexists; split; [exact ex_fire_fires|reflexivity]. Qed.
+Example T02ctl_elif_stops : sicf_step ex_elif = Stop /\ sicf ex_elif = ex_elif.
+Proof. exact ex_elif_stops. Qed.
+End Ctl.
